@@ -498,7 +498,9 @@ func RunStream(c *Ctx, cfg StreamCfg, handle func(w *Worker, sc StrCase, res *[s
 	// might normalise away: BOM, CRLF / LF / TAB / NBSP / zero-width space before or after, surrounding
 	// quotes or brackets, a trailing comment, lower- and upper-cased as a whole, header case variants
 	if cfg.Cover {
-		decoPre := []string{"\ufeff", " ", "\t", "\n", "\r\n", "\u00a0", "\u200b", "\"", "'", "(", "[", "<"}
+		decoPre := []string{"\ufeff", " ", "\t", "\n", "\r\n", "\u00a0", "\u200b", "\"", "'", "(", "[", "<",
+			// a score, a label or a product in front of the vector, the way advisories and scanners print them
+			"9.8/", "10.0/", "7.5/", "0.0/", "4/", "9.8 ", "9.8:", "9.8 (", "CVSS/", "CVSSv3/", "v3.1/", "3.1/", "cvss:", "CVSS3#", "CVSS2#", "NVD/", "vector=", "cvssV3_1/", "H/", "CRITICAL/", "AV:N/", "//"}
 		decoSuf := []string{" ", "\t", "\n", "\r\n", "\r", "\u00a0", "\u200b", "\"", "'", ")", "]", ">", ";", ",", ".", " #x", "\x00", "\x1a"}
 		for vi, v := range spec.Versions {
 			vi, v := vi, v
